@@ -328,6 +328,38 @@ func (e *Engine) builtin(st *State, f *Frame, bi *ssa.Builtin, args []Val, x ssa
 			r = b.Ite(lt, t, r)
 		}
 		return Scalar{r}, actNext
+	case "Slice": // unsafe.Slice(ptr, len)
+		lt, ok := scalarOf(args[1])
+		if !ok {
+			return Poison{"unsafe.Slice length"}, actNext
+		}
+		var lsigned bool
+		if sig, ok := bi.Type().(*types.Signature); ok && sig.Params().Len() > 1 {
+			lsigned = isSigned(sig.Params().At(1).Type())
+		}
+		ln := b.Resize(lt, 64, lsigned)
+		p, ok := args[0].(Ptr)
+		if !ok {
+			return Poison{fmt.Sprintf("unsafe.Slice of %T", args[0])}, actNext
+		}
+		if p.obj == 0 {
+			e.guard(st, b.Eq(ln, b.BV(64, 0)), "unsafe.Slice: ptr is nil and len is not zero", pos)
+			return e.nilSlice(false), actNext
+		}
+		if len(p.path) == 0 || p.path[len(p.path)-1].field != -1 {
+			return Poison{"unsafe.Slice of a non-element pointer"}, actNext
+		}
+		basePath := p.path[:len(p.path)-1]
+		av, ok := e.getPath(e.objVal(st, p.obj), basePath).(ArrayV)
+		if !ok {
+			return Poison{"unsafe.Slice: no backing array"}, actNext
+		}
+		off := p.path[len(p.path)-1].idx
+		n := len(av.e)
+		e.guard(st, b.Sle(b.BV(64, 0), ln), "unsafe.Slice: len out of range", pos)
+		// the slice must stay inside the object it points into (anything else reads foreign memory)
+		e.guard(st, b.And(b.Ule(ln, b.BV(64, uint64(n))), b.Ule(off, b.Sub(b.BV(64, uint64(n)), ln))), "unsafe.Slice extends beyond the underlying buffer", pos)
+		return SliceV{obj: p.obj, base: basePath, n: n, off: off, len: ln, cap: ln}, actNext
 	case "print", "println", "close":
 		return nil, actNext
 	case "recover":
